@@ -67,6 +67,18 @@ def main(tier, seed):
                 open(path, "w", encoding="utf-8").write(src)
                 for lvl in (0, 1, 2):
                     jobs.append((path, lvl, data)); meta.append((name, lvl, text, want))
+        # every Unicode scalar value through the loop-until-EOF copier (lines of 997 characters); quick: each third of
+        # the code space at one level, thorough: the whole code space at every level
+        allc = [chr(v) for v in range(0, 0x110000) if not (0xD800 <= v <= 0xDFFF)]
+        nch = 48
+        size = (len(allc) + nch - 1) // nch
+        cpath = os.path.join(tmp, "cat_all.hyeong")
+        open(cpath, "w", encoding="utf-8").write(CAT)
+        for ci in range(nch):
+            part = allc[ci * size:(ci + 1) * size]
+            text = "".join(c + ("\n" if i % 997 == 996 else "") for i, c in enumerate(part))
+            for lvl in ((ci % 3,) if tier == "quick" else (0, 1, 2)):
+                jobs.append((cpath, lvl, text.encode("utf-8"))); meta.append(("cat-every-scalar-value", lvl, text, text))
         with ThreadPoolExecutor(max_workers=NCPU) as ex:
             res = list(ex.map(run_bin, jobs))
         marker = b"==> running code\n"
@@ -77,6 +89,11 @@ def main(tier, seed):
             i = so.find(marker)
             got = so[i + len(marker):] if i >= 0 else None
             ok = (got == want.encode("utf-8") and se == b"" and rc == 0)
+            if not ok and name == "cat-every-scalar-value" and got is not None:
+                # name the first code point that does not come back
+                w = want.encode("utf-8"); k = next((i for i in range(min(len(w), len(got))) if w[i] != got[i]), min(len(w), len(got)))
+                pos = len(w[:k].decode("utf-8", "ignore"))
+                text = text[max(0, pos - 2):pos + 3]; want = text
             if not ok:
                 rep.violation("impl-vs-spec", {"what": "%s at -O%d does not reproduce its input" % (name, lvl), "input_codepoints": enc_text(text)[:400], "expected": enc_text(want)[:400],
                                                "got": (got or b"").decode("utf-8", "replace")[:200], "stderr": se.decode("utf-8", "replace")[:200], "status": rc,
